@@ -49,3 +49,14 @@ Print Assumptions C01_numba_poly_csd.
 Print Assumptions C01_cuda_poly_csd.
 Print Assumptions C01_numpy_csd.
 Print Assumptions C01_goertzel_is_rotated_dft.
+Print Assumptions C01_numba_win_only_auto.
+Print Assumptions C01_numba_win_only_csd.
+Print Assumptions C01_numba_detrend0_auto.
+Print Assumptions C01_numba_detrend0_csd.
+Print Assumptions C01_numba_poly_auto.
+Print Assumptions C01_cuda_win_only_auto.
+Print Assumptions C01_cuda_win_only_csd.
+Print Assumptions C01_cuda_detrend0_auto.
+Print Assumptions C01_cuda_detrend0_csd.
+Print Assumptions C01_cuda_poly_auto.
+Print Assumptions C01_numpy_auto.
